@@ -14,7 +14,7 @@ namespace drvsim {
 extern const std::vector<std::string> kAccOptions;
 
 // Base scenario for a generated model: files{stub.nl}, argv, expect{nvars,ncons,nobjs,...}
-sim::Json model_scenario(const gen::Model& m, bool ampl_flag);
+sim::Json model_scenario(const gen::Model& m, bool ampl_flag, bool binary = false);   // binary: little-endian binary NL encoding of the same model
 
 enum NamesMode { NAMES_NONE = 0, NAMES_FULL, NAMES_SHORT, NAMES_CRLF, NAMES_TORN, NAMES_EMPTY_FIRST, NAMES_COL_ONLY, NAMES_MODES };
 // Adds stub.col / stub.row in the given shape; records "names_mode" in the scenario.
